@@ -24,3 +24,22 @@ package connect
 //@ ensures[auth] match ==> (auth <==> ixn.Action == structs.IntentionActionAllow)
 //@ ensures[no-match-no-auth] !match ==> !auth
 //@ modifies nothing
+
+//@ file uri.go
+
+// Parsing goes through regular expressions and net/url (outside the verified subset). ASSUMED: a deterministic
+// function of the URL with no side effects.
+//@ func ParseCertURI
+//@ trusted
+//@ opt pure yes
+//@ results id, err
+
+//@ file uri_signing.go
+
+//@ func SpiffeIDSigning.CanSign
+//@ props C12
+//@ results can
+//@ ensures[service-same-trust-domain] is[*SpiffeIDService](cu) && can ==> strLower(as[*SpiffeIDService](cu).Host) == id.Host()
+//@ ensures[mesh-gateway-same-trust-domain] is[*SpiffeIDMeshGateway](cu) && can ==> strLower(as[*SpiffeIDMeshGateway](cu).Host) == id.Host()
+//@ ensures[server-same-trust-domain] is[*SpiffeIDServer](cu) && can ==> strLower(as[*SpiffeIDServer](cu).Host) == id.Host()
+//@ ensures[other-kinds-refused] !is[*SpiffeIDSigning](cu) && !is[*SpiffeIDService](cu) && !is[*SpiffeIDMeshGateway](cu) && !is[*SpiffeIDServer](cu) ==> !can
